@@ -145,12 +145,18 @@ func genTransferBase(r *simrt.Rand, tier string) *TransferPlan {
 		o.MaxPieces = 48
 		o.MaxPieceLen = 128 << 10
 	}
+	if r.Chance(0.1) {
+		// many small pieces: a web seed request then spans several pieces (5% of the torrent per
+		// request), the picker's lists get long
+		o.MinPieces, o.MaxPieces, o.MaxPieceLen = 40, 160, 16<<10
+	}
 	l := gen.RandomLayout(r, o)
 	tp := &TransferPlan{Layout: l, K: knobsTransfer(r), Net: netCfg(r)}
 	if tp.K.WriteCacheSize > 0 && tp.K.WriteCacheSize < int64(l.PieceLen) {
 		tp.K.WriteCacheSize = int64(l.PieceLen) // at least one piece must fit
 	}
 	tp.DiskWriteLatMax = simrt.Pick(r, []time.Duration{time.Millisecond, 20 * time.Millisecond, 300 * time.Millisecond})
+	tp.DiskInstant = r.Chance(0.15)
 	return tp
 }
 
@@ -462,6 +468,31 @@ func init() {
 			}
 		}
 		ls := &LimitsSpec{Balance: r.Chance(0.6), BogusAddrs: simrt.Pick(r, []int{0, 5, 60})}
+		if !tp.PreSeeded && r.Chance(0.3) {
+			// contention for the memory of pieces in flight: room for one or two pieces, every
+			// peer connected and interested in the client (kept at completion), slow disk: requests
+			// for memory queue up and are still queued when the torrent leaves Downloading
+			k.WriteCacheSize = int64(r.Range(1, 2)) * int64(tp.Layout.PieceLen)
+			k.MaxPeerDial, k.MaxPeerAccept = 10, 10
+			k.SpeedLimitDownload = 0
+			// a fast disk: the last piece is written while the queue is still being drained
+			tp.DiskWriteLatMax = simrt.Pick(r, []time.Duration{time.Millisecond, time.Millisecond, 50 * time.Millisecond, time.Second})
+			tp.DiskInstant = r.Chance(0.6)
+			tp.Webseeds = nil
+			for i := range tp.Peers {
+				b := &tp.Peers[i].B
+				b.Leech, b.LeechInterested, b.LeechPipeline = true, true, r.Range(1, 8)
+				b.DisconnectAfterBlocks = 0
+				tp.Peers[i].At = r.Dur(0, 3*time.Second)
+				// slow serving: one download occupies the memory for long
+				b.ServeDelay = [2]time.Duration{r.Dur(0, 200*time.Millisecond), r.Dur(200*time.Millisecond, 2*time.Second)}
+				if r.Chance(0.7) {
+					// every unchoke makes the client ask for memory again: the queue gets long
+					b.ChokeFlapEvery = r.Dur(30*time.Millisecond, time.Second)
+				}
+			}
+			ls.Balance = true
+		}
 		for i := 0; i < r.Range(0, 4); i++ {
 			ls.BadHS = append(ls.BadHS, BadHSSpec{Name: fmt.Sprintf("x%d", i), Mode: simrt.Pick(r, []string{"dial", "dial", "listen"}), Kind: simrt.Pick(r, []string{"silent", "garbage", "wronghash", "slow", "close"}), At: r.Dur(0, tp.FaultsStop/2), N: r.Range(1, 4)})
 		}
@@ -528,6 +559,33 @@ func init() {
 		hp := honestPeer(r, tp.Layout, "h0", np)
 		hp.At = tp.FaultsStop - r.Dur(0, 5*time.Second)
 		tp.Peers = append(tp.Peers, hp)
+		if r.Chance(0.35) {
+			// a slow honest web seed: its download stays active while the choking, flapping and
+			// partial peers announce pieces inside its range (the picker's web-seed branch)
+			tp.Webseeds = append(tp.Webseeds, WebseedSpec{Name: "ws", Mode: "honest", Honest: true, DelayMax: simrt.Pick(r, []time.Duration{500 * time.Millisecond, 3 * time.Second, 10 * time.Second})})
+			// throttled, so that the web seed is still at work when the peers arrive, and peers
+			// that keep the client choked for a while after connecting
+			tp.K.SpeedLimitDownload = int64(r.Range(4, 48))
+			if np < 40 && r.Chance(0.7) {
+				tp.Layout = gen.RandomLayout(r, gen.GenOpts{MinPieces: 40, MaxPieces: 160, MaxPieceLen: 16 << 10, AllowPad: true})
+				np2 := numPiecesOf(tp.Layout)
+				for i := range tp.Peers {
+					old := tp.Peers[i].B.Have
+					nb := refbt.NewBits(np2)
+					for j := 0; j < np2; j++ {
+						if tp.Peers[i].Honest || old.Has(j%np) {
+							nb.Set(j)
+						}
+					}
+					tp.Peers[i].B.Have = nb
+				}
+			}
+			for i := range tp.Peers {
+				if !tp.Peers[i].Honest && r.Chance(0.5) {
+					tp.Peers[i].B.UnchokeDelay = r.Dur(3*time.Second, 40*time.Second)
+				}
+			}
+		}
 		tp.Bound = 2 * time.Hour
 		tp.Liveness = true
 		p.Transfer = tp
@@ -616,6 +674,17 @@ func init() {
 			}
 			ps := PeerSpec{Name: fmt.Sprintf("m%d", i), B: b, Mode: simrt.Pick(r, []string{"dial", "listen"}), At: r.Dur(0, tp.FaultsStop/2), Redial: r.Dur(time.Second, 8*time.Second), Via: simrt.Pick(r, []string{"magnet", "manual"})}
 			tp.Peers = append(tp.Peers, ps)
+		}
+		if r.Chance(0.3) {
+			// metadata stallers: they advertise the metadata, never answer a request, keep the
+			// client choked and stay connected for good; as many as there are download slots,
+			// connected before the honest peer (only the snub timer frees their slots)
+			tp.K.RequestTimeout = r.Dur(2*time.Second, 10*time.Second)
+			for i := 0; i < max(1, tp.K.ParallelMetadataDownloads)+r.Range(0, 1); i++ {
+				b := refbt.Behavior{Fast: r.Chance(0.5), Ext: true, Announce: "auto", Have: refbt.FullBits(np), MetaMode: "silent", MetaLimit: effLimit, NeverUnchoke: r.Chance(0.7)}
+				tp.Peers = append(tp.Peers, PeerSpec{Name: fmt.Sprintf("st%d", i), B: b, Mode: simrt.Pick(r, []string{"dial", "listen"}), At: r.Dur(0, 2*time.Second), Via: simrt.Pick(r, []string{"magnet", "manual"}), Stays: true})
+			}
+			tp.Peers[0].At = r.Dur(3*time.Second, tp.FaultsStop)
 		}
 		tp.Bound = 2 * time.Hour
 		// completion can be demanded only if the honest peer's metadata is within the limit
